@@ -52,3 +52,20 @@ def gated_pair5(a, b):
     STARTED.append(a)
     gate(a).wait(30)
     return (a + b) * 5
+
+
+def gated_x10_kw(x, key=0, retries=0, z=0):
+    """keyword names chosen to collide with Client.submit's own parameters if they are not kept apart"""
+    STARTED.append(x)
+    gate(x).wait(30)
+    return x * 10 + key + retries + z
+
+
+def pair_kw(a, b, key=0, priority=0):
+    STARTED.append(a)
+    gate(a).wait(30)
+    return (a + b) * 5 + key + priority
+
+
+def ident(x):
+    return x
